@@ -1,11 +1,31 @@
 (* C05 -- HTTP/2: every emitted frame is legal for the connection and stream state.
    H2/H2Legal.v is an RFC 9113 wire tracker written independently of h2.c; the check extracts it and runs it over
    every frame the implementation emits for exhaustive/random client frame sequences (harness/h2_h.c, trace mode).
-   The theorems below are about what the HTTP/2 model (H2/H2Flow.v, tied to h2.c by the C06 correspondence) emits.
-   PARTIAL: the single statement "legal (trace of the model) = None for every event sequence" is not proven yet;
-   its clauses that are proven for every history are listed here. *)
-From LV Require Import Base.Bytes Gen.GenH2 H2.H2Flow H2.H2FlowProofs H2.H2Legal H2.H2LegalProofs.
+   The theorems below are about what the HTTP/2 model (H2/H2Flow.v, tied to h2.c by the C06 correspondence and, frame for frame in the
+   tracker's vocabulary, by the trace correspondence of props/C05.py) emits.  The whole-trace statement comes first: for every history of
+   client events the model accepts, every frame it emits is accepted by the tracker in the state the connection is in at that moment
+   (H2/H2Trace.v: a simulation invariant between the model's connection state and the tracker's).  Regime of the model: requests are
+   complete GETs (END_STREAM | END_HEADERS), the events are SETTINGS, SETTINGS ACK, HEADERS, WINDOW_UPDATE and PING; header block lengths
+   and the two frames of the server preface are outside it.  Frames outside this regime are judged by the extracted tracker only. *)
+From Coq Require Import List.
+From LV Require Import Base.Bytes Gen.GenH2 H2.H2Flow H2.H2FlowProofs H2.H2Legal H2.H2LegalProofs H2.H2Trace.
 Local Open Scope Z_scope.
+
+(* every emitted frame is legal for the connection and stream state, in every history: no frame after a GOAWAY with an error, no payload
+   above the peer's SETTINGS_MAX_FRAME_SIZE, HEADERS/DATA only on streams the client opened, response HEADERS before DATA, nothing after
+   END_STREAM or RST_STREAM, RST_STREAM only on opened streams, SETTINGS/PING acknowledgements only for frames received, GOAWAY naming a
+   stream the client opened (tracker clauses 1-16) *)
+Theorem every_emitted_frame_is_legal : forall es tr, Forall ev_fits es -> trace h2_init es = Some tr -> exists l, legal_from l_init tr = inl l.
+Proof. exact every_emitted_frame_is_legal_in_every_history. Qed.
+Print Assumptions every_emitted_frame_is_legal.
+
+(* and on a connection still alive at the end nothing is owed: every SETTINGS acknowledged, every PING echoed, no header block left open, no
+   connection error left unanswered; the only end-of-trace clause that can remain is a response waiting for flow-control credit (C06) *)
+Theorem nothing_is_owed_at_the_end : forall es tr cf l, Forall ev_fits es -> trace h2_init es = Some tr -> final h2_init es = Some cf ->
+  legal_from l_init tr = inl l -> alive cf = true ->
+  l_unacked l = 0 /\ l_pings l = 0 /\ l_sv_cont l = None /\ l_conn_err l = false /\ (final_check true l = None \/ final_check true l = Some 23%N).
+Proof. exact nothing_owed_at_the_end. Qed.
+Print Assumptions nothing_is_owed_at_the_end.
 
 (* payloads never exceed the peer's SETTINGS_MAX_FRAME_SIZE (and DATA frames are never empty except END_STREAM);
    the frames of one send add up to exactly the amount taken from the windows *)
